@@ -49,7 +49,7 @@ void BfgsMultiDimensions::doInit(const ParameterList& params)
 
   for (size_t i = 0; i < nbParams; i++)
   {
-    auto cp = params[i].getConstraint();
+    auto cp = getParameters()[i].getConstraint();
     if (!cp)
     {
       Up_[i] = NumConstants::VERY_BIG();
